@@ -59,6 +59,10 @@ def build(run):
     unit.add(Snippet(psrc.item('struct', 'PythonVersion', with_attrs=True), 'struct PythonVersion'))
     pv_new = Snippet(psrc.fn('new', impl=r'PythonVersion'), 'PythonVersion::new')
     unit.raw("impl PythonVersion {\n")
+    # the associated version constants (V3_07 ...) are carried as well: the mapping functions may name them
+    pv_impl = psrc.impl_block(r'PythonVersion')
+    for cm in re.finditer(r'(?m)^\s*pub const (V\w+): Self = [^;]*;', pv_impl.text):
+        unit.add(Snippet(psrc.item('const', cm.group(1)), 'PythonVersion::' + cm.group(1)))
     unit.add(pv_new)
     unit.raw("}\n")
     ssrc = Source(run.repo, 'crates/erg_common/serialize.rs')
